@@ -31,8 +31,9 @@ use std::{
     time::Duration,
 };
 
-pub const ALL: [ExchangeId; 10] = [
-    POOL[0], POOL[1], POOL[2], POOL[3], POOL[4], POOL[5], POOL[6], POOL[7], UNUSED[0], UNUSED[1],
+pub const ALL: [ExchangeId; 14] = [
+    POOL[0], POOL[1], POOL[2], POOL[3], POOL[4], POOL[5], POOL[6], POOL[7], POOL[8], POOL[9],
+    POOL[10], POOL[11], UNUSED[0], UNUSED[1],
 ];
 
 #[derive(Debug, Clone, PartialEq)]
@@ -198,6 +199,10 @@ pub fn add_stub<'a>(
         6 => b.add_live::<Stub<6>>(log, t),
         7 => b.add_live::<Stub<7>>(log, t),
         8 => b.add_live::<Stub<8>>(log, t),
-        _ => b.add_live::<Stub<9>>(log, t),
+        9 => b.add_live::<Stub<9>>(log, t),
+        10 => b.add_live::<Stub<10>>(log, t),
+        11 => b.add_live::<Stub<11>>(log, t),
+        12 => b.add_live::<Stub<12>>(log, t),
+        _ => b.add_live::<Stub<13>>(log, t),
     }
 }
